@@ -65,6 +65,13 @@ def check(ctx):
             g = bytearray(fr)
             g[bit // 8] ^= 1 << (bit % 8)
             fl.append("crc " + hexs(g))
+        # structured near-miss trailers: the right FCS in the wrong form must be refused
+        f = int.from_bytes(fcs, "little")
+        alts = [fcs[::-1], fcs[2:] + fcs[:2], bytes(b ^ 0xff for b in fcs), ((f + 1) & 0xffffffff).to_bytes(4, "little"), ((f - 1) & 0xffffffff).to_bytes(4, "little"),
+                bytes([fcs[1], fcs[0], fcs[3], fcs[2]]), (f ^ 0xffffffff).to_bytes(4, "big"), (zlib.crc32(p[:-1]) & 0xffffffff).to_bytes(4, "little") if p else b"\0\0\0\0",
+                (zlib.crc32(p + fcs) & 0xffffffff).to_bytes(4, "little"), bytes(4), b"\xff\xff\xff\xff", fcs[1:] + fcs[:1]]
+        for a in alts:
+            fl.append("crc " + hexs(p + a))
         for _ in range(10):  # bursts up to 32 bits
             start = rnd.randrange(8 * len(fr))
             g = bytearray(fr)
